@@ -330,6 +330,20 @@ func runC01(c *mc.Ctx) {
 	})
 	c.Sample("addr", cases[0])
 	c.Sample("addr", cases[len(cases)-1])
+	// every (net, kind) once as the FIRST library call of a process of its own (tables filled on first
+	// use, prefixes registered lazily: which kind and which net comes first must not matter)
+	{
+		var first []any
+		seenNK := map[string]bool{}
+		for i := len(cases) - 1; i >= 0; i-- {
+			if k := cases[i].Net + "/" + cases[i].Kind; !seenNK[k] {
+				seenNK[k] = true
+				first = append(first, cases[i])
+			}
+		}
+		c.Space("(net, kind) pairs, each as the first library call of a fresh process", int64(len(first)))
+		c.FreshAll("addr", first)
+	}
 }
 
 // refPointOf parses a serialized public key of any of the three formats with the reference curve code.
